@@ -103,11 +103,14 @@ ErrOf(s) == IF s.out.kind = "badsend" THEN [code |-> 13, msg |-> "library", ndet
             ELSE IF s.out.kind = "plain" THEN [code |-> 2, msg |-> s.out.msg, ndet |-> 0, meta |-> <<>>]
             ELSE [code |-> s.out.code, msg |-> IF s.out.kind = "ctxwrap" THEN "ctx:" \o s.out.msg ELSE s.out.msg,
                   ndet |-> s.out.ndet, meta |-> UserMeta(s.out.meta)]
+\* a client-streaming handler has one response; an error can still follow it when an interceptor around the handler
+\* fails after the handler returned (out.after = 1): the response is on the wire, then the error
+Late(s) == s.kind = "client" /\ Failing(s) /\ s.out.after = 1
 NSent(s) == IF ~Failing(s) THEN Len(s.resp)
-            ELSE IF Streamy(s) THEN Min2(s.out.after, Len(s.resp)) ELSE 0
+            ELSE IF Streamy(s) \/ Late(s) THEN Min2(s.out.after, Len(s.resp)) ELSE 0
 \* header and trailer metadata the handler program manages to attach
-HdrSet(s) == IF Failing(s) /\ ~Streamy(s) THEN <<>> ELSE s.resphdr
-TrlSet(s) == IF Failing(s) /\ ~Streamy(s) THEN <<>> ELSE s.resptrl
+HdrSet(s) == IF Failing(s) /\ ~Streamy(s) /\ ~Late(s) THEN <<>> ELSE s.resphdr
+TrlSet(s) == IF Failing(s) /\ ~Streamy(s) /\ ~Late(s) THEN <<>> ELSE s.resptrl
 
 (* where the protocol puts the final status *)
 StatusAt(s, nsent) ==
